@@ -56,3 +56,10 @@ From Scrapli Require Import WriteSrc.
 Theorem C11_write_is_source : write_src_ok = true.
 Proof. exact write_is_source. Qed.
 Print Assumptions C11_write_is_source.
+
+(* escalate as translated: the secret is the HIDDEN second event of an interactive send made through
+   the channel (whose result keeps no record of the inputs), and nothing else in the function touches it *)
+From Scrapli Require Import EscalateSrc.
+Theorem C11_escalate_is_source : esc_table_ok = true.
+Proof. exact escalate_is_source. Qed.
+Print Assumptions C11_escalate_is_source.
